@@ -125,6 +125,8 @@ func runC14(c *Ctx) {
 	ruleFormatCursors(c)
 	ruleTimeExact(c)
 	ruleSpanSiblings(c)
+	ruleSuccessAtEOF(c)
+	ruleGuardSide(c)
 	c.rule("R-CONTEXT-FRESH", 1, "the leading and trailing context findContext returns are separate allocations (shared with C13): the formats print what Unify merged in place")
 	if fc := P.Func("mdiff", "Diff", "findContext"); fc != nil {
 		ruleContextDisjoint(c, fc)
@@ -296,50 +298,53 @@ func runC14(c *Ctx) {
 		off int64
 	}
 	rUnified := map[byte]rl{}
-	ast.Inspect(ruc, func(n ast.Node) bool {
-		sw, ok := n.(*ast.SwitchStmt)
-		if !ok || sw.Tag == nil {
-			return true
-		}
-		if _, isIdx := sw.Tag.(*ast.IndexExpr); !isIdx {
-			return true
-		}
-		for _, s := range sw.Body.List {
-			cc := s.(*ast.CaseClause)
-			for _, e := range cc.List {
-				v, ok := constIntOf(info, e)
-				if !ok {
-					continue
-				}
-				// the arm hands the line's payload and an opcode to the routine that files it (a closure or a
-				// helper, whatever its name): a call with an EditOp constant and a tail slice line[k:]
-				ast.Inspect(cc, func(m ast.Node) bool {
-					call, ok := m.(*ast.CallExpr)
+	for _, rfd := range helperDecls(p, ruc, 2) {
+		rfd := rfd
+		ast.Inspect(rfd, func(n ast.Node) bool {
+			sw, ok := n.(*ast.SwitchStmt)
+			if !ok || sw.Tag == nil {
+				return true
+			}
+			if _, isIdx := identDef(info, rfd, sw.Tag).(*ast.IndexExpr); !isIdx {
+				return true
+			}
+			for _, s := range sw.Body.List {
+				cc := s.(*ast.CaseClause)
+				for _, e := range cc.List {
+					v, ok := constIntOf(info, e)
 					if !ok {
-						return true
+						continue
 					}
-					op, off, haveOp := int64(0), int64(-1), false
-					for _, a := range call.Args {
-						if tv, ok := info.Types[a]; ok {
-							if nt, ok := tv.Type.(*types.Named); ok && nt.Obj().Name() == "EditOp" {
-								if k, ok := constIntOf(info, a); ok {
-									op, haveOp = k, true
+					// the arm hands the line's payload and an opcode to the routine that files it (a closure or a
+					// helper, whatever its name): a call with an EditOp constant and a tail slice line[k:]
+					ast.Inspect(cc, func(m ast.Node) bool {
+						call, ok := m.(*ast.CallExpr)
+						if !ok {
+							return true
+						}
+						op, off, haveOp := int64(0), int64(-1), false
+						for _, a := range call.Args {
+							if tv, ok := info.Types[a]; ok {
+								if nt, ok := tv.Type.(*types.Named); ok && nt.Obj().Name() == "EditOp" {
+									if k, ok := constIntOf(info, a); ok {
+										op, haveOp = k, true
+									}
 								}
 							}
+							if se, ok := identDef(info, rfd, a).(*ast.SliceExpr); ok && se.Low != nil && se.High == nil {
+								off, _ = constIntOf(info, se.Low)
+							}
 						}
-						if se, ok := a.(*ast.SliceExpr); ok && se.Low != nil && se.High == nil {
-							off, _ = constIntOf(info, se.Low)
+						if haveOp && off >= 0 {
+							rUnified[byte(v)] = rl{op, off}
 						}
-					}
-					if haveOp && off >= 0 {
-						rUnified[byte(v)] = rl{op, off}
-					}
-					return true
-				})
+						return true
+					})
+				}
 			}
-		}
-		return true
-	})
+			return true
+		})
+	}
 	// table form: if op, ok := markerTable[line[0]]; ok { file(op, line[k:]) }
 	for _, fd := range helperDecls(p, ruc, 2) {
 		ast.Inspect(fd, func(n ast.Node) bool {
@@ -516,7 +521,7 @@ func runC14(c *Ctx) {
 				if s, ok := strConst(info, a); ok {
 					wTokens = append(wTokens, s)
 				}
-				if inner, ok := a.(*ast.CallExpr); ok {
+				if inner, ok := identDef(info, unified, a).(*ast.CallExpr); ok {
 					if id, ok := inner.Fun.(*ast.Ident); ok && id.Name == "uspan" && len(inner.Args) == 3 {
 						if s, ok := strConst(info, inner.Args[0]); ok {
 							wTags = append(wTags, s)
@@ -979,7 +984,24 @@ func helperDecls(p *packages.Package, root *ast.FuncDecl, depth int) []*ast.Func
 			if name == "" || seen[name] {
 				return true
 			}
-			if fd := findFuncDecl(p, name); fd != nil && len(out) < 12 {
+			fd := findFuncDecl(p, name)
+			if fd == nil {
+				// a method of a package type: resolved through the selector's object
+				if sel, ok := call.Fun.(*ast.SelectorExpr); ok {
+					if obj, ok := p.TypesInfo.Uses[sel.Sel].(*types.Func); ok && obj.Pkg() == p.Types {
+						for _, f := range p.Syntax {
+							for _, d := range f.Decls {
+								if md, ok := d.(*ast.FuncDecl); ok && md.Recv != nil && md.Body != nil {
+									if o, ok := p.TypesInfo.Defs[md.Name].(*types.Func); ok && o.Origin() == obj.Origin() {
+										fd = md
+									}
+								}
+							}
+						}
+					}
+				}
+			}
+			if fd != nil && len(out) < 12 {
 				seen[name] = true
 				out = append(out, fd)
 			}
@@ -1083,4 +1105,39 @@ func recordTables(p *packages.Package) (map[string]int64, map[types.Type]bool) {
 		}
 	}
 	return letters, recTypes
+}
+
+// identDef: e itself, or — when e is an identifier defined by a := in fd (also in the init clause of a switch or
+// if) — the expression it was defined as.
+func identDef(info *types.Info, fd *ast.FuncDecl, e ast.Expr) ast.Expr {
+	id, ok := e.(*ast.Ident)
+	if !ok {
+		return e
+	}
+	obj := info.Uses[id]
+	if obj == nil {
+		obj = info.Defs[id]
+	}
+	if obj == nil {
+		return e
+	}
+	var out ast.Expr = e
+	n := 0
+	ast.Inspect(fd, func(m ast.Node) bool {
+		as, ok := m.(*ast.AssignStmt)
+		if !ok || len(as.Lhs) != len(as.Rhs) {
+			return true
+		}
+		for i, l := range as.Lhs {
+			if li, ok := l.(*ast.Ident); ok && (info.Defs[li] == obj || info.Uses[li] == obj) {
+				n++
+				out = as.Rhs[i]
+			}
+		}
+		return true
+	})
+	if n != 1 {
+		return e // assigned more than once: not a name for one expression
+	}
+	return out
 }
